@@ -166,7 +166,7 @@ def run(ctx):
                        G_cmp(r"const:.*RESOURCE_PACKAGE\]?$|const:.*FUNGIBLE_VAULT_BLUEPRINT$", r"call:.*get_actor_field_info$", "vault", equal=True)],
                       f"flags.contains({flag}) == false OR blueprint == (RESOURCE_PACKAGE, FUNGIBLE_VAULT_BLUEPRINT)")
             check_guarded(ctx, f"actor_open_field|{flag}-only-for-vault", b, opens, [g], "kernel_open_substate*", min_targets=2)
-        cs = sorted(c.rsplit("::", 1)[1] for bb in ctx.bodies_of(root) for c in bb.fn.consts if c.endswith("_BLUEPRINT") or c.endswith("_PACKAGE"))
+        cs = sorted(c.rsplit("::", 1)[-1] for bb in ctx.bodies_of(root) for c in bb.fn.consts if c.endswith("_BLUEPRINT") or c.endswith("_PACKAGE"))
         ctx.ob("actor_open_field|exemption-constants", cs == ["FUNGIBLE_VAULT_BLUEPRINT", "RESOURCE_PACKAGE"], f"package/blueprint constants in actor_open_field: {cs}", b.loc())
     else:
         ctx.ob("anchor|actor_open_field", False, "opener not found")
@@ -199,7 +199,7 @@ def run(ctx):
             nodeok = any(re.search(r"RoyaltyRecipient::vault_id$|rev::Rev|locked_fees|into_unique_version|CONSENSUS_MANAGER|ComponentAddress::into_node_id$", x) for x in node)
             ctx.ob("finalize_fees|writes-only-fee-substates", keyok and part == {"const:radix_engine_interface::types::node_layout::MAIN_BASE_PARTITION"} and nodeok,
                    f"set_substate(node from {[x.split('::')[-1] for x in sorted(node) if x.startswith('call:')][:3]}, {sorted(part)}, key {sorted(k.split('::')[-2]+'::'+k.split('::')[-1] for k in key if k.startswith('agg:'))})", b.loc(bb))
-        evs = sorted({x.rsplit("::", 1)[1] for y in ctx.bodies_of(n) for x in y.fn.structs if x.endswith("Event")} | {v.split("::")[-2] + "::" + v.split("::")[-1] for y in ctx.bodies_of(n) for v in y.fn.vars if "Event::" in v})
+        evs = sorted({x.rsplit("::", 1)[-1] for y in ctx.bodies_of(n) for x in y.fn.structs if x.endswith("Event")} | {v.split("::")[-2] + "::" + v.split("::")[-1] for y in ctx.bodies_of(n) for v in y.fn.vars if "Event::" in v})
         ctx.ob("finalize_fees|only-fee-events", set(evs) <= {"DepositEvent", "PayFeeEvent", "BurnFungibleResourceEvent"} and bool(evs), f"events constructed by fee finalisation: {evs}", b.loc())
     n = SC + "::update_transaction_tracker"
     if ctx.anchor(n):
